@@ -37,7 +37,8 @@ REQUIRED = ["KV.C08.constants_ok", "KV.C08.hyp_of_build", "KV.C08.extendLeft_eq"
             "KV.C08.beginNonTerminal_rule", "KV.C08.any_derivation_leftToRight", "KV.C08.no_rest_fragment_table",
             "KV.C08.no_rest_fragment", "KV.C08.subsume_frag", "KV.C08.derivation_score_unique",
             "KV.C08.subsume_whole_minus_parts", "KV.C08.reveal_after", "KV.C08.reveal_after_whole_minus_parts", "KV.C08.reveal_before", "KV.C08.reveal_before_whole_minus_parts", "KV.C08.reveal_both", "KV.C08.reveal_both_whole_minus_parts",
-            "KV.C08.any_derivation_fails_with_dropped_marks", "KV.C08.open_states_square", "KV.C08.nonterminal_dead_branches"]
+            "KV.C08.any_derivation_fails_with_dropped_marks", "KV.C08.open_states_square", "KV.C08.nonterminal_dead_branches",
+            "KV.C08.reset_equiv_fresh", "KV.C08.reset_keeping_done_not_fresh", "KV.C08.reset_keeping_done_breaks_total"]
 
 KEY_G = "trie-drops-extension-marks-of-trailing-blanks"
 
@@ -186,6 +187,38 @@ def trailing_blank_case(rng):
     c.queries = qs
     c.meta = {"order": N, "vocab": len(uni), "kind": "trailing-blank", "unk": "<unk>", "crlf": False, "bos": True, "eos": True,
               "bitbound": False, "style_c": False, "closed": False, "ngrams": sum(len(grams[n]) for n in grams)}
+    return c
+
+
+def dense_array_case(rng):
+    """Class aimed at the array-compressed tries (seeded/C08-4): a suffix-closed 3-gram model with every bigram and a few
+    hundred trigrams, so that ArrayBhiksha's offset table of the bigram layer has several blocks even for few chopped
+    bits.  Built from lists only: the same seed gives the same model whatever PYTHONHASHSEED is."""
+    c = lmgen.Case()
+    words = ["d%d" % i for i in range(rng.randrange(10, 14))]
+    uni = ["<unk>", "<s>", "</s>"] + words
+    rng.shuffle(uni)
+    bi = [(a, b) for a in ["<s>"] + words for b in words + ["</s>"]]
+    rng.shuffle(bi)
+    tri_all = [(a, b, x) for (a, b) in bi if b != "</s>" for x in words + ["</s>"]]
+    tri = rng.sample(tri_all, min(len(tri_all), rng.randrange(350, 600)))
+    grams = {1: [(w,) for w in uni], 2: bi, 3: tri}
+    ctxs = set(g[:-1] for n in (2, 3) for g in grams[n])
+    lines = ["\\data\\"] + ["ngram %d=%d" % (n, len(grams[n])) for n in (1, 2, 3)] + [""]
+    for n in (1, 2, 3):
+        lines.append("\\%d-grams:" % n)
+        for g in grams[n]:
+            ln = ("-99" if g == ("<s>",) else "-%.4f" % rng.uniform(0.05, 4.0)) + "\t" + " ".join(g)
+            if n < 3 and g in ctxs:
+                ln += "\t-%.4f" % rng.uniform(0.05, 1.5)
+            lines.append(ln)
+        lines.append("")
+    lines.append("\\end\\")
+    c.arpa = ("\n".join(lines) + "\n").encode()
+    c.mult, c.abits, c.order, c.words = 1.5, rng.choice([3, 5, 7]), 3, words
+    c.queries = [(rng.choice("BN"), [rng.choice(words) for _ in range(rng.randrange(4, 9))]) for _ in range(8)]
+    c.meta = {"order": 3, "vocab": len(uni), "kind": "dense-array", "unk": "<unk>", "crlf": False, "bos": True, "eos": True,
+              "bitbound": False, "style_c": False, "closed": True, "ngrams": sum(len(grams[n]) for n in grams)}
     return c
 
 
@@ -382,6 +415,14 @@ def compare_op(op, il, ml, loaded, info, qfit, subnormal):
             probs.append({"kind": "output-missing", "cls": c})
             continue
         rest = c in "RL"
+        if si.startswith("RESETDIFF"):
+            # API history: one RuleScore reused through Reset()/Reset(ChartState&) must equal fresh objects bit for bit
+            fr, ru = si[len("RESETDIFF fresh: "):].split(" %% reused: ", 1)
+            a, b = fr.split(" | "), ru.split(" | ")
+            j = next((i for i in range(min(len(a), len(b))) if a[i] != b[i]), min(len(a), len(b)))
+            probs.append({"kind": "reset-history", "cls": c, "node": j, "fresh": a[j] if j < len(a) else None,
+                          "reused": b[j] if j < len(b) else None})
+            continue
         if "MODEL-TRACE-MISMATCH" in sm:
             probs.append({"kind": "driver-internal", "cls": c})
             continue
@@ -563,7 +604,10 @@ def left_stream(ctx, hexe, dexe, n_cases, quick):
     found = False
     for ci in range(n_cases):
         kind = ctx.rng.choice(["pruned", "pruned", "corpus", "random", None, "trailing-blank"])
-        if kind == "trailing-blank":
+        if ci == 0:
+            kind = "dense-array"            # once per run, whatever the seed
+            case = dense_array_case(ctx.rng)
+        elif kind == "trailing-blank":
             case = trailing_blank_case(ctx.rng)
         else:
             case = lmgen.gen_case(ctx.rng, size="small", max_vocab=14, force={"kind": kind} if kind else None)
@@ -645,7 +689,7 @@ def left_stream(ctx, hexe, dexe, n_cases, quick):
                 bad.append((oi, op, probs))
         if bad:
             # one report per case: prefer an op where the implementation contradicts the L0 oracle / its own whole-minus-parts
-            strong = ("oracle-total", "oracle-adjust", "oracle-extend", "whole-minus-parts", "extend-vs-full-context-prob")
+            strong = ("reset-history", "oracle-total", "oracle-adjust", "oracle-extend", "whole-minus-parts", "extend-vs-full-context-prob")
             def rank(b):
                 ks = [q["kind"] for q in b[2]]
                 return (0 if any(k in strong for k in ks) else 1, len(b[1]))
